@@ -49,4 +49,27 @@ structure WF (s : VSet) : Prop where
 /-- every priority lies in `[-B, B]` -/
 def PrioBound (vs : List Val) (B : Int) : Prop := ∀ v ∈ vs, -B ≤ v.prio ∧ v.prio ≤ B
 
+/-- `UpdateWithChangeSet` as a state transformer: an error leaves the receiver as it was -/
+def applyUpdate (s : VSet) (ch : List Val) : VSet :=
+  match update s ch with
+  | .ok s' => s'
+  | .error _ => s
+
+/-- States reachable from `NewValidatorSet` by accepted `UpdateWithChangeSet` calls and by
+`IncrementProposerPriority(times)` calls whose `times` satisfies `allowed`. -/
+inductive Reach (allowed : Int → Prop) : VSet → Prop
+  | new {valz : List Val} {s : VSet} : newSet valz = .ok s → Reach allowed s
+  | update {s s' : VSet} {ch : List Val} : Reach allowed s → update s ch = .ok s' → Reach allowed s'
+  | inc {s s' : VSet} {times : Int} : Reach allowed s → allowed times → opInc times s = .ok s' →
+      Reach allowed s'
+
+/-- observations along `n` iterations, in one pass -/
+def trace {σ β : Type} (f : σ → σ) (obs : σ → β) : Nat → σ → List β
+  | 0, _ => []
+  | n + 1, s => obs s :: trace f obs n (f s)
+
+def cnt (a : Option Nat) : List (Option Nat) → Nat
+  | [] => 0
+  | x :: xs => (if x = a then 1 else 0) + cnt a xs
+
 end GnoVerif.C37
